@@ -61,7 +61,8 @@ T = {
  'C10': ("C10_set/C10_option/C10_unquote_*: type by value count, one surrounding pair of quotes removed only from quoted arguments, values joined by "
          "single spaces, option fields. Via T_agg for the machine. Tie: set/option-profile modules in all argument forms.", "", "Lean 4 proof + differential correspondence"),
  'C11': ("C11_name/C11_expectfail/C11_addtest_sig/C11_warnings: name = argument after NAME, EXPECTFAIL by exact element, add_test signature drops NAME and the "
-         "name by position only; sections as own entries in order (T_agg). Tie: keyword-profile modules.",
+         "name by position only and keeps EVERY other argument, parenthesised ones included (C11_addtest_all_args; D19, repaired by 5a2a72e); sections as own "
+         "entries in order (T_agg). Tie: keyword-profile modules, add_test with parenthesised arguments.",
          "Inputs with NAME twice are outside the quantifier.", "Lean 4 proof + differential correspondence"),
  'C12': ("C12_frame (over/underline exactly the title's length in code points), C12_one_module, C12_names/prefix/ext/injective (K4 excluded explicitly; no side condition on the separator since the repair a0734fb), C12_module_doc, "
          "C01_module_doc. Tie: trees x prefixes x separators x extension flags x header lists x input spellings.", "os.path.relpath/abspath trusted.",
@@ -74,10 +75,17 @@ T = {
          "tree and reachability from the top index is walked.", "The generator varies rst.module_path_separator (D17: the top index title was wrong for every separator other than '.', repaired by 8466859).",
          "Lean 4 proof + differential correspondence on directory trees"),
  'C15': ("C15_iff (processed iff neither the file nor a directory on the way is excluded), C15_no_descend, C15_root, C15_order (invariance under every "
-         "permutation of every directory listing, for an ARBITRARY exclusion predicate), C15_old_* (the pre-repair loop violates it). Tie: pathspec bits computed "
-         "with exactly CMinx's strings, >= 4 imposed listing orders per tree.", "pathspec (gitwildmatch) itself is trusted.",
-         "Lean 4 proof (permutation invariance) + differential correspondence with imposed listing orders"),
- 'C16': ("C16_precedence/first_wins/default/type_rejected/filters/outdir_*: CMinx's decision logic stated outright. PARTIAL by nature: confuse/argparse/YAML are "
+         "permutation of every directory listing, for an ARBITRARY exclusion predicate), C15_old_* (the pre-repair loop violates it). C15Glob.lean (20 theorems) over "
+         "Glob.lean, the model of pathspec's gitwildmatch translation (segment normalisation, regular expression, search, last match wins): a bare name matches a "
+         "path iff it is one of its components (C15G_bare_name), `name/` only components followed by a slash (C15G_dir_only), one-segment globs match a whole "
+         "component (C15G_glob_component), `/a/b` is anchored (C15G_anchored), last match wins / union without negations / order and source independence "
+         "(C15G_last_wins, C15G_union, C15G_union_perm), exclOf for bare names = some component of the ABSOLUTE path is a pattern (C15G_exclOf_bare; K7 as theorem "
+         "C15G_K7_above_input). Tie: pathspec bits computed with exactly CMinx's strings, >= 4 imposed listing orders per tree; Glob.lean against pathspec on "
+         "raw pattern/path strings and on every (string, answer) pair observed at PathSpec.match_file during real runs.",
+         "pathspec's range notation [...] is outside Glob.lean (reported as unsupported, skipped); Python's re engine is modelled by a 7-constructor matcher.",
+         "Lean 4 proof (permutation invariance; gitignore rules over a model of pathspec) + differential correspondence with imposed listing orders"),
+ 'C16': ("C16_precedence/first_wins/default/type_rejected/filters/outdir_*, C16_filters_any_source_rejected (the union option is type-checked in EVERY source, "
+         "resolveMain): CMinx's decision logic stated outright. PARTIAL by nature: confuse/argparse/YAML are "
          "not modelled; the tie is the EXHAUSTIVE enumeration of option x subset of sources x wrong-typed values against the real main().",
          "K6 (mapping accepted for rst.headers) is an open known finding.", "Lean 4 proof of decision logic + exhaustive enumeration of the finite configuration space"),
  'C17': ("C17_history (files generated for one input are the same alone and inside any longer run), location/cwd are not inputs of the model, C15_order for listing "
